@@ -411,6 +411,7 @@ COMMON_ASSUMPTIONS = [
 ]
 ASSUMPTIONS = {}
 RULES = {
+    "C06": "case = (smoother in damped_jacobi|gauss_seidel|spai0|spai1|chebyshev|ilu0|iluk|ilup|ilut with drawn parameters, matrix: M-matrix / convection-diffusion / structurally non-symmetric / disconnected / positive off-diagonal family or tridiagonal / arrow, rows sorted or diagonal-first, scalar or 2x2 non-commuting block values, nt 1..32 (>=4 takes the level-scheduled paths), schedule); each case runs under two schedules; oracles: parallel level-scheduled solve == serial (bitwise for Gauss-Seidel, rounding for ILU), schedule independence, exact solution is a fixed point, closed formulas (Jacobi, Gauss-Seidel forward/backward, SPAI-0), (LU)_ij = a_ij on the pattern of A via extracted M (n<=40, Eigen), exact inverse on tridiagonal/arrow and for ILU(k>n), SPAI-1 normal equations and pattern, Chebyshev sweep affine about the solution; non-trivial = n>=3; distinct by hash(matrix, smoother, parameters, nt)",
     "C07": "case = (value type float|double|long double|complex|2x2 block or backend block_crs|builtin_hybrid|Eigen, shape incl. 0 rows, rectangular, sizes not divisible by the block size, coefficients in {0,1,-1,2,-3}, output poisoned with NaN/+Inf/-Inf wherever its coefficient is zero, nt 1..32, schedule); primitives spmv, residual, axpby, axpbypcz, vmul, lin_comb, copy, clear, inner_product (conjugate-linear in the second argument), scalar vectors in place of block vectors; integer-valued data so that the formula is exact in every type and equality is exact; non-trivial = n>=1; distinct by hash(seeds, type, shape, nt, coefficients)",
     "C08": "case = (kernel in transpose|product|sum|scale+sort_rows|diagonal|pointwise_matrix|copy/convert constructors|gershgorin|power method|complex transpose+product, shapes incl. 0 rows / empty rows / rectangular, integer-valued entries so that the dense model is exact, sorted or unsorted rows where permitted, nt 1..32 (<=16 marker-based, >=17 row-merge SpGEMM; every static chunking), schedule strategy); oracle: dense exact model, well-formed CRS, no duplicates for sorted inputs, Gershgorin >= rho(A) and power estimate <= sigma_max via Eigen (n<=60); non-trivial = >=2 rows; distinct by hash(matrix seed, shapes, kernel, nt, flags)",
     "C03": "script = construct amg<recorder<coarsening>, recording spai0> (4 coarsenings, eps_strong/over_interp/relax/trunc/block_size varied, coarse_enough 1..3000, max_levels, direct_coarse, nt in {1,2,5,16 | 17,24,32} i.e. both SpGEMM algorithms) on a generated square matrix, then 1..8 rebuild() calls with perturbed / power-of-two scaled / sign-flipped / stronger-diagonal / original matrices and wrong-sized ones; invariants per level: A_c = R*A*P*float(1/over_interp) against a dense long-double model with an entrywise rounding bound, R = P^T bitwise (not emin), sizes strictly decrease, coarsest level direct iff <= coarse_enough and direct_coarse; per rebuild: P/R unchanged, coarse operators Galerkin again, action on probe vectors bitwise equal to a fresh amg<replayer<coarsening>> built from A' with the recorded P/R, rebuild(A0) restores the original action; non-trivial = >=2 levels and >=1 rebuild that changes the matrix; distinct by hash(matrix, configuration, script, SpGEMM algorithm)",
